@@ -42,6 +42,10 @@ func txnScenarios() []txnScen {
 		// conflict must still be seen (per-transaction resources of the engine are recycled in between)
 		{Name: "S6-lost-update-after-many-bystanders", Init: init, Staged: []stagedTxn{{Prog: rw("C", "rx", "wx"), Defer: true}, {Prog: rw("C", "wx"), Pad: 40}}, Threads: [][]txProg{{ro("rx")}}},
 		{Name: "S7-write-skew-after-many-bystanders", Init: init, Staged: []stagedTxn{{Prog: rw("C", "rx", "ry", "wx"), Defer: true}, {Prog: rw("C", "rx", "ry", "wy"), Pad: 40}}, Threads: [][]txProg{{ro("rx", "ry")}}},
+		// a key written twice, the victim's snapshot between the two commits; an old reader that held the read watermark
+		// below the first commit goes away, a third commit cleans up: the record of the SECOND commit must survive the
+		// expiry of the first
+		{Name: "S8-conflict-survives-expiry-of-older-commit-of-the-key", Init: init, Staged: []stagedTxn{{Prog: ro("ry"), Defer: true}, {Prog: rw("C", "wx")}, {Prog: rw("C", "wa")}, {Prog: rw("C", "rx", "wx"), Defer: true}, {Prog: rw("C", "wx")}}, Threads: [][]txProg{{rw("C", "wa"), rw("C", "wz")}}},
 		{Name: "R6-updating-reader-spans-compactions", Init: init, Threads: [][]txProg{{rw("C", "ry", "Q", "rx", "ry", "wy")}, {rw("C", "rx", "wa", "wx", "wz"), rw("C", "wa", "wx", "wy", "wz"), ro("rx"), rw("C", "wa", "wx", "dy", "wz"), rw("C", "wa", "wx", "wz")}}},
 		{Name: "C1-read-absent-delete", Init: []txProg{rw("C", "wy")}, Threads: [][]txProg{{rw("C", "rx", "wy")}, {rw("C", "wx")}, {rw("C", "dx")}}},
 		{Name: "C2-own-write-then-read", Init: init, Threads: [][]txProg{{rw("C", "wx", "rx", "wy")}, {rw("C", "wx")}, {rw("X", "rx", "wx")}}},
